@@ -12,7 +12,7 @@ EXPLANATION = (
     "(R2) ACCUMULATE - a byte accumulator grows only by len_utf8 of the scanned character, a UTF-16 column only by "
     "len_utf16, a line counter only by one on the '\\n' edge, a code-point counter only by one per character. "
     "Exactness, clamping and the round trip are value-level and are not decided.")
-EXPLANATION += ' Further clauses: (R3) CLAMP, (R4) RANGE-ENDS, (R5) SAME-TEXT - a span is converted with the text of its own document, change batches in order; (R6) SAME-VERSION (shared C15.R1/R6). (R7) LOADER-TEXT (shared C11.R1); R6 also shares C15.R3. (R8) ENCODING - the announced position encoding is the constant UTF-16; (R9) LOCATION-PAIR - an edit is filed under the document its range was computed for.'
+EXPLANATION += ' Further clauses: (R3) CLAMP, (R4) RANGE-ENDS, (R5) SAME-TEXT - a span is converted with the text of its own document, change batches in order; (R6) SAME-VERSION (shared C15.R1/R6). (R7) LOADER-TEXT (shared C11.R1); R6 also shares C15.R3. (R8) ENCODING - the announced position encoding is the constant UTF-16; (R9) LOCATION-PAIR - an edit is filed under the document its range was computed for. (R10) MONOTONE - the UTF-16 column counter is compared with the requested column by an ordering.'
 TECHNIQUE = "static analysis: units (dimension) inference on MIR with declared signatures"
 
 SCOPE = [
@@ -350,7 +350,44 @@ def r9_location_pair(c, facts, rule='C16.R9'):
     c.floor(R, 'text edits built by rename_variable', n, 2)
 
 
+def r10_monotone_column(c, facts, rule='C16.R10'):
+    """the column counter grows by 1 or 2 UTF-16 units per character, so a requested column can be stepped over (a
+    position inside a surrogate pair): the scan must stop when the counter has *reached* the column (>=), not when it is
+    equal to it - otherwise the start of a range can land behind its end and String::replace_range panics"""
+    import mirflow as MF
+    R = c.rule(rule, 'MONOTONE: the UTF-16 column counter is compared with the requested column by an ordering, never by equality')
+    fn = c.anchor(R, 'oal_client::lsp::unicode::position_to_utf8')
+    u = U.Units(fn).solve()
+    accs = {acc for acc, ln, inc, unit, sb in u.accumulators() if unit == 'U' and inc.get('o') != 'const'}
+    c.floor(R, 'UTF-16 column counters in position_to_utf8', len(accs), 1)
+    idx = MF.defs_index(fn)
+    eq = False
+    ordered = False
+    for b, blk in fn.blocks():
+        for st in blk['stmts']:
+            if st['s'] != 'assign' or st['rv']['r'] != 'binop' or st['rv'].get('op') not in ('Eq', 'Ne', 'Ge', 'Gt', 'Le', 'Lt'):
+                continue
+            ops = [st['rv'].get('a'), st['rv'].get('b')]
+            involved = False
+            for o in ops:
+                if o and 'l' in o and (o['l'] in accs or accs & MF.slice_back(fn, o['l'], idx, through_calls=False)['locals']):
+                    involved = True
+            other_is_column = any(o and 'l' in o and MF.field_path(o)[-1:] == ['character'] for o in ops) or any(o and 'l' in o and any(MF.field_path(x['rv'].get('op', {}))[-1:] == ['character'] for k, _, x in idx.get(o['l'], []) if k == 'assign' and x['rv']['r'] == 'use') for o in ops)
+            if involved and other_is_column:
+                if st['rv']['op'] in ('Eq', 'Ne'):
+                    eq = True
+                else:
+                    ordered = True
+    if eq:
+        c.bad(R, 'position_to_utf8:column-tested-by-equality', 'position_to_utf8 stops at the requested column only when the counter equals it; the counter advances by 2 over a character outside the BMP, so a column inside such a character is never met and the offset runs to the end of the line: the start of an edit range can then exceed its end and String::replace_range panics (the server exits)')
+    elif ordered:
+        c.ok(R, {'position_to_utf8': 'column reached test is an ordering'})
+    else:
+        c.bad(R, 'position_to_utf8:column-test-not-found', 'position_to_utf8: cannot find the comparison of the column counter with position.character')
+
+
 def run(c, facts):
+    c.run(r10_monotone_column, facts)
     c.run(r8_encoding, facts)
     c.run(r9_location_pair, facts)
     import c15
